@@ -2,6 +2,8 @@
 # refaccheck.sh <diff>... : apply a behaviour-preserving refactoring to a scratch worktree and run every property's rules on it.
 export PATH=/opt/veriftools/go1.26.8/bin:$PATH GOTOOLCHAIN=local GOFLAGS=-mod=mod GOPROXY=off GOSUMDB=off GOWORK=off
 WT=${WT:-/tmp/devwt}
+CREATED=0
+if [ ! -d "$WT" ]; then git -C /repo worktree add -q --detach "$WT" HEAD && CREATED=1; fi
 for d in "$@"; do
   git -C $WT checkout -q -- . ; git -C $WT clean -fdq
   if ! git -C $WT apply "$d" 2>/dev/null; then echo "REFAC $d: does not apply"; continue; fi
@@ -17,3 +19,4 @@ else:
 ")"
 done
 git -C $WT checkout -q -- . ; git -C $WT clean -fdq
+if [ "$CREATED" = 1 ]; then git -C /repo worktree remove --force "$WT"; fi
